@@ -45,11 +45,9 @@ func (s *snapshot) Get(key []byte, cb func(value []byte) error) error {
 		return err
 	}
 
-	if err := cb(data); err != nil {
-		return err
-	}
-
-	return closer.Close()
+	// Release the value also when the callback fails, as Database.Get and Batch.Get do;
+	// otherwise the store cannot be closed any more ('leaked iterators').
+	return errors.Join(cb(data), closer.Close())
 }
 
 func (s *snapshot) NewIterator(prefix []byte, withUpperBound bool) (db.Iterator, error) {
